@@ -2,9 +2,12 @@
 // a real MeterProvider / Meter / Counter / UpDownCounter of the repo's working tree, 1..4 explicit MetricReader
 // subclasses collected explicitly, driven by the op lines the Lean model driver (lean/Driver/C06.lean) also reads.
 //
-//   met cfg <D|C|P|Q[~m],...> <views: n:c|n:u,... or -> ; create <name> <cl|cd|ul|ud> ; add <handle> <attr> <value> ; collect <r>
+//   met cfg <D|C|P|Q[~m],...> <views: n:c|n:u,... or -> ; create <name> <cl|cd|ul|ud> [n] ; add <handle> <attr> <value> ; collect <r>
 //       ; race <handle> <threads T> <adds N> <r> <collections K> ; flush ; shutdown
 //
+// `create ... n`: the instrument is created on a second meter "n" of the same provider (the views select meter "m" only, so its
+// streams are the default ones); an instrument of the same name on the other meter is a different instrument.  Its streams
+// are printed with the prefix `n:`.
 // reader P / Q: a temporality selector by instrument type (P: delta for Counter, cumulative for UpDownCounter - the OTLP
 // "delta preference"; Q the other way round).  `~m` (m = 0..2): the reader is added through the
 // AddMetricReader(reader, MetricFilter) overload; the filter's TestMetric answers by the last digit x of the stream
@@ -110,6 +113,7 @@ struct World
   sdkm::MeterContext *ctx = nullptr;
   std::shared_ptr<sdkm::MeterProvider> provider;
   nostd::shared_ptr<apim::Meter> meter;
+  nostd::shared_ptr<apim::Meter> meter_n;  // the second meter, requested on first use
   std::vector<std::unique_ptr<Handle>> handles;
   std::vector<std::pair<TimeNs, TimeNs>> windows;
   TimeNs sdk_start = 0;              // exact, when the construction path used exposes the MeterContext
@@ -278,7 +282,7 @@ static std::string attr_index(const sdkm::PointAttributes &attrs)
   return std::to_string(a);
 }
 
-static std::string stream_label(const World &w, const sdkm::InstrumentDescriptor &d)
+static std::string stream_label(const World &w, const sdkm::InstrumentDescriptor &d, bool on_n)
 {
   std::string kind;
   if (d.type_ == sdkm::InstrumentType::kCounter) kind = "c";
@@ -303,7 +307,7 @@ static std::string stream_label(const World &w, const sdkm::InstrumentDescriptor
     std::string bad = desc_ok(x, "");
     return bad.empty() ? std::to_string(x) + "." + kind + ".0" : bad;
   }
-  if (n[0] == 'v' && static_cast<size_t>(x) < w.views.size())
+  if (n[0] == 'v' && static_cast<size_t>(x) < w.views.size() && !on_n)
   {
     std::string bad = desc_ok(w.views[x].first, x % 3 == 2 ? "vd" + std::to_string(x) : "");
     if (!bad.empty()) return bad;
@@ -315,9 +319,11 @@ static std::string stream_label(const World &w, const sdkm::InstrumentDescriptor
   return "?name:" + n;
 }
 
-static std::string show_md(const World &w, const sdkm::MetricData &md)
+static std::string show_md(const World &w, const sdkm::MetricData &md, const std::string &scope)
 {
-  std::string s = stream_label(w, md.instrument_descriptor);
+  if (scope != "m" && scope != "n") return "?scope:" + scope + " ? ? ? {}";
+  std::string s = stream_label(w, md.instrument_descriptor, scope == "n");
+  if (scope == "n" && s[0] != '?') s = "n:" + s;
   s += md.aggregation_temporality == sdkm::AggregationTemporality::kDelta
            ? " D "
            : (md.aggregation_temporality == sdkm::AggregationTemporality::kCumulative ? " C " : " ? ");
@@ -368,8 +374,11 @@ static std::string handle_met(const std::vector<std::string> &t)
   for (size_t i = 1; i < ops.size(); i++)
   {
     auto &op = ops[i];
-    if (op.size() == 3 && op[0] == "create")
+    if ((op.size() == 3 || (op.size() == 4 && op[3] == "n")) && op[0] == "create")
     {
+      const bool on_n = op.size() == 4;
+      if (on_n && !w.meter_n) w.meter_n = w.provider->GetMeter("n");
+      auto &the_meter = on_n ? w.meter_n : w.meter;
       long long n;
       if (!parse_nat(op[1], n) || n >= 8) return "bad-op";
       std::unique_ptr<Handle> h(new Handle);
@@ -387,7 +396,7 @@ static std::string handle_met(const std::vector<std::string> &t)
         std::unique_ptr<std::string> desc(new std::string("d" + std::to_string(n)));
         std::unique_ptr<std::string> unit(new std::string("By"));
         nostd::string_view ds(desc->data(), desc->size()), us(unit->data(), unit->size());
-#define CREATE(F) (variant == 0 ? w.meter->F(nm) : (variant == 1 ? w.meter->F(nm, ds) : w.meter->F(nm, ds, us)))
+#define CREATE(F) (variant == 0 ? the_meter->F(nm) : (variant == 1 ? the_meter->F(nm, ds) : the_meter->F(nm, ds, us)))
         if (ki == 0) h->cl = CREATE(CreateUInt64Counter);
         else if (ki == 1) h->cd = CREATE(CreateDoubleCounter);
         else if (ki == 2) h->ul = CREATE(CreateInt64UpDownCounter);
@@ -461,17 +470,17 @@ static std::string handle_met(const std::vector<std::string> &t)
     {
       long long r;
       if (!parse_nat(op[1], r) || static_cast<size_t>(r) >= w.readers.size()) return "bad-op";
-      std::vector<sdkm::MetricData> got;
+      std::vector<std::pair<std::string, sdkm::MetricData>> got;
       TimeNs before = tick();
       w.readers[r]->Collect([&](sdkm::ResourceMetrics &rm) {
         for (auto &sm : rm.scope_metric_data_)
-          for (auto &md : sm.metric_data_) got.push_back(md);
+          for (auto &md : sm.metric_data_) got.emplace_back(sm.scope_->GetName(), md);
         return true;
       });
       TimeNs after = tick();
       w.windows.emplace_back(before, after);
       std::vector<std::string> mds;
-      for (auto &md : got) mds.push_back(show_md(w, md));
+      for (auto &md : got) mds.push_back(show_md(w, md.second, md.first));
       std::sort(mds.begin(), mds.end());
       outs.push_back("[" + vh::join(mds, " | ") + "]");
     }
@@ -503,17 +512,18 @@ static std::string handle_met(const std::vector<std::string> &t)
       bool bad = false;
       auto collect_once = [&]() {
         TimeNs before = tick();
-        std::vector<sdkm::MetricData> got;
+        std::vector<std::pair<std::string, sdkm::MetricData>> got;
         w.readers[r]->Collect([&](sdkm::ResourceMetrics &rm) {
           for (auto &sm : rm.scope_metric_data_)
-            for (auto &md : sm.metric_data_) got.push_back(md);
+            for (auto &md : sm.metric_data_) got.emplace_back(sm.scope_->GetName(), md);
           return true;
         });
         TimeNs after = tick();
         w.windows.emplace_back(before, after);
-        for (auto &md : got)
+        for (auto &scoped : got)
         {
-          std::string text = show_md(w, md);  // "label T start end {a=v,...}"
+          auto &md         = scoped.second;
+          std::string text = show_md(w, md, scoped.first);  // "label T start end {a=v,...}"
           size_t sp = text.find(' '), br = text.find('{');
           std::string label = text.substr(0, sp);
           auto &m           = acc[label];
